@@ -152,6 +152,38 @@ pub enum InterpolateError {
 ///  - Types should be annotated to ensure type inference does not break
 /// the contract by accident
 unsafe fn cast_unchecked<A, B>(a: A) -> B {
+    #[cfg(ndarray_interp_verif)]
+    verif_hooks::on_cast::<A, B>();
     let ptr = &*ManuallyDrop::new(a) as *const A as *const B;
     unsafe { ptr.read() }
+}
+
+/// Verification hooks, compiled only with `--cfg ndarray_interp_verif`.
+///
+/// `cast_unchecked` asserts that source and destination are the same type (name, size and
+/// alignment) and counts the casts of the current thread, so that a harness can tell whether
+/// the specialised path for one-dimensional queries was taken.
+#[cfg(ndarray_interp_verif)]
+pub mod verif_hooks {
+    use std::cell::Cell;
+
+    thread_local! {
+        static CASTS: Cell<usize> = const { Cell::new(0) };
+    }
+
+    pub(crate) fn on_cast<A, B>() {
+        assert_eq!(
+            std::any::type_name::<A>(),
+            std::any::type_name::<B>(),
+            "cast_unchecked between different types"
+        );
+        assert_eq!(std::mem::size_of::<A>(), std::mem::size_of::<B>());
+        assert_eq!(std::mem::align_of::<A>(), std::mem::align_of::<B>());
+        CASTS.with(|c| c.set(c.get() + 1));
+    }
+
+    /// number of `cast_unchecked` calls made by the current thread so far
+    pub fn cast_count() -> usize {
+        CASTS.with(|c| c.get())
+    }
 }
